@@ -99,6 +99,12 @@ def stepLine (s : St) (ws : List String) : Option St :=
       match step s (.check (optNat tv) false (park = "1")) with
       | some s' => some s'
       | none => step s (.check (optNat tv) true (park = "1"))
+  | ["check", tv, "~", park] =>
+      -- a shutdown() call overlapped this section: the unlocked read of the flag may have seen either value, whatever the phase
+      -- the projection has reached (evaluate the test as if the shutdown were in progress; the phase itself is left as it is)
+      match step { s with shut := .begun } (.check (optNat tv) false (park = "1")) with
+      | some s' => some { s' with shut := s.shut }
+      | none => (step { s with shut := .begun } (.check (optNat tv) true (park = "1"))).map (fun s' => { s' with shut := s.shut })
   | _ => (parseAct ws).bind (step s)
 
 def run (lines : Array String) : String := runActs stepLine (fun ws => some ws) describe init lines
